@@ -6,6 +6,7 @@ import (
 	"io"
 	"math"
 	"runtime"
+	"slices"
 	"sort"
 	"strings"
 
@@ -53,7 +54,7 @@ func c03Container(r *run.Run) {
 	}
 	scalers := []uint32{header.ScalerTypeTrueType, header.ScalerTypeCFF, header.ScalerTypeApple}
 	r.Explore(explore.Config{Name: "C03.container", Deadline: r.PartDeadline(0.4)},
-		"header.Write on every map of <=3 (quick) / <=4 (thorough) tags from {head,glyf,OS/2,abcd,zzzz,'    ','~~~~'} x lengths x fill patterns x scaler types (head >= 12 bytes), with optional nil entries; non-trivial = at least two tables",
+		"header.Write on every map of <=3 (quick) / <=4 (thorough) tags from {head,glyf,OS/2,abcd,zzzz,'    ','~~~~'} x lengths x fill patterns x scaler types (head >= 12 bytes), with optional nil entries, x storage {separate allocations, adjacent sub-slices of one array in ascending / descending tag order}; non-trivial = at least two tables",
 		func(c *explore.Ctx) {
 			scaler := scalers[c.Choose(len(scalers), "scaler")]
 			pat := c.Choose(fills, "fill")
@@ -86,6 +87,39 @@ func c03Container(r *run.Run) {
 			if present == 0 {
 				c.Skip("no table")
 			}
+			// storage of the caller's slices: separate allocations, or consecutive sub-slices of one
+			// array (tables cut out of a memory image) in ascending / descending tag order, the last one
+			// followed by spare capacity
+			storage := c.Choose(3, "storage")
+			var image, imageBefore []byte
+			headAt := -1
+			if storage > 0 {
+				var tags []string
+				for t, b := range tables {
+					if b != nil {
+						tags = append(tags, t)
+					}
+				}
+				sort.Strings(tags)
+				if storage == 2 {
+					slices.Reverse(tags)
+				}
+				for _, t := range tags {
+					image = append(image, tables[t]...)
+				}
+				image = append(image, 0xA5, 0xA5, 0xA5, 0xA5)
+				pos := 0
+				for _, t := range tags {
+					n := len(tables[t])
+					tables[t] = image[pos : pos+n]
+					if t == "head" {
+						headAt = pos
+					}
+					pos += n
+				}
+				imageBefore = append([]byte{}, image...)
+				desc = append(desc, fmt.Sprintf("storage: sub-slices of one array in order %q", tags))
+			}
 			c.Sample(func() any {
 				return map[string]any{"scaler": fmt.Sprintf("%#08x", scaler), "fill": pat, "tables": desc}
 			})
@@ -105,6 +139,12 @@ func c03Container(r *run.Run) {
 			out := buf.Bytes()
 			if int(n) != len(out) {
 				c.Fail("C03.count", sig, "header.Write reported %d bytes, wrote %d (%v)", n, len(out), desc)
+			}
+			if headAt >= 0 { // the checksum adjustment of the head table is patched in place (documented)
+				copy(image[headAt+8:headAt+12], imageBefore[headAt+8:headAt+12])
+			}
+			if !bytes.Equal(image, imageBefore) {
+				c.Fail("C03.tables", sig+" / caller's data", "header.Write modified the caller's table data (%v)", desc)
 			}
 			c.Outcome(out)
 			cont, probs := refsfnt.Walk(out)
@@ -441,6 +481,52 @@ func c03Fonts(r *run.Run) {
 		})
 }
 
+// c03CFFRuns: CFF glyphs whose paths are long runs of one segment type with a tail of another type (the
+// Type 2 encoder has to split them at the 48-entry argument stack): the independent implementation
+// loads every glyph and sees the same outline.
+func c03CFFRuns(r *run.Run) {
+	r.Explore(explore.Config{Name: "C03.cff-runs"},
+		"CFF fonts written with Font.Write whose glyph 'A' is a run of every length 1..60 of one of 9 segment types followed by one segment of another of the 9 types: container walk, and golang.org/x/image loads every glyph and agrees on the outlines",
+		func(c *explore.Ctx) {
+			a := c04RunReps[c.Choose(len(c04RunReps), "run segment")]
+			b := c04RunReps[c.Choose(len(c04RunReps), "tail segment")]
+			f, spec := FontFromChoices(gen.FontOpts{NoMeta: true, NoLayout: true}, gen.KindCFF, 2, 0, 0, 1)
+			ol := *f.Outlines.(*cff.Outlines)
+			ol.Glyphs = append([]*cff.Glyph{}, ol.Glyphs...)
+			gid := spec.Runes['A']
+			old := ol.Glyphs[gid]
+			desc := fmt.Sprintf("%s x 1..60, %s", a.name, b.name)
+			c.Sample(func() any { return desc })
+			for n := 1; n <= 60; n++ {
+				var segs []c04Seg
+				for i := 0; i < n; i++ {
+					segs = append(segs, a)
+				}
+				segs = append(segs, b)
+				g := buildGlyph(old.Name, old.Width, [2]float64{-100, 50}, segs)
+				ol.Glyphs[gid] = g
+				f.Outlines = &ol
+				buf := &bytes.Buffer{}
+				if _, err := f.Write(buf); err != nil {
+					c.Fail("C03.write-err", "Font.Write / cff runs", "Write failed: %v (%s, run of %d)", err, desc, n)
+					return
+				}
+				if _, probs := refsfnt.Walk(buf.Bytes()); len(probs) > 0 {
+					c.Fail("C03.wellformed", "Font.Write / cff runs", "%s (%s, run of %d)", probs[0], desc, n)
+					return
+				}
+				if crossCheckXImage(c, "C03", f, spec.Runes, buf.Bytes()) > 0 {
+					c.Nontrivial()
+				}
+				if c.Failed() {
+					c.Tag(fmt.Sprintf("fails at a run of %d", n))
+					return
+				}
+			}
+			c.Outcome(desc)
+		})
+}
+
 // ---- whole glyf fonts whose glyf table sits at the short/long loca thresholds ----
 
 func c03FillerGlyph(fill int) *glyf.Glyph {
@@ -695,6 +781,7 @@ func init() {
 		c03Container(r)
 		c03Fonts(r)
 		c03Scaled(r)
+		c03CFFRuns(r)
 		c03Inner(r)
 		// one P: the goroutines of the interleaving exploration share per-P caches (sync.Pool), as on a loaded machine
 		old := runtime.GOMAXPROCS(1)
